@@ -21,17 +21,18 @@ import (
 // C17 — Concurrent Store use keeps Head monotone and readers never see torn state.
 
 type C17Scenario struct {
-	Cfg       StoreCfg     `json:"cfg"`
-	Prefill   int          `json:"prefill"`    // store starts as [1..prefill], flushed
-	Writers   [][]C12Chunk `json:"writers"`    // chunks above prefill (off relative to prefill+1)
-	SyncAfter []bool       `json:"sync_after"` // per writer: Sync after each chunk and verify it is readable
-	Readers   int          `json:"readers"`
-	ReadSteps int          `json:"read_steps"`
-	DeleteK   int          `json:"delete_k"` // 0 = no deleter; else DeleteRange(1, 1+k), k < prefill
-	Tape      []int        `json:"tape"`
-	Real      bool         `json:"real,omitempty"` // engine B: real threads, no controlled schedule
-	Jitter    []int        `json:"jitter,omitempty"`
-	DSYield   bool         `json:"ds_yield,omitempty"` // engine A: datastore accesses are yield points too
+	Cfg         StoreCfg     `json:"cfg"`
+	Prefill     int          `json:"prefill"`    // store starts as [1..prefill], flushed
+	Writers     [][]C12Chunk `json:"writers"`    // chunks above prefill (off relative to prefill+1)
+	SyncAfter   []bool       `json:"sync_after"` // per writer: Sync after each chunk and verify it is readable
+	Readers     int          `json:"readers"`
+	ReadSteps   int          `json:"read_steps"`
+	DeleteK     int          `json:"delete_k"` // 0 = no deleter; else DeleteRange(1, 1+k), k < prefill
+	Tape        []int        `json:"tape"`
+	Real        bool         `json:"real,omitempty"` // engine B: real threads, no controlled schedule
+	Jitter      []int        `json:"jitter,omitempty"`
+	DSYield     bool         `json:"ds_yield,omitempty"` // engine A: datastore accesses are yield points too
+	DSReadsOnly bool         `json:"ds_reads_only,omitempty"`
 }
 
 func genC17(t *rapid.T) C17Scenario {
@@ -52,16 +53,17 @@ func genC17(t *rapid.T) C17Scenario {
 		nc := rapid.IntRange(1, 3).Draw(t, "nchunks")
 		var w []C12Chunk
 		for j := 0; j < nc; j++ {
-			w = append(w, C12Chunk{Off: rapid.IntRange(0, 9).Draw(t, "coff"), N: rapid.IntRange(1, 4).Draw(t, "cn")})
+			w = append(w, C12Chunk{Off: rapid.IntRange(0, 15).Draw(t, "coff"), N: rapid.IntRange(1, 4).Draw(t, "cn")})
 		}
 		s.Writers = append(s.Writers, w)
 		s.SyncAfter = append(s.SyncAfter, rapid.Bool().Draw(t, "syncafter"))
 	}
 	if rapid.Bool().Draw(t, "deleter") {
-		s.DeleteK = rapid.IntRange(1, s.Prefill-1).Draw(t, "deletek")
+		s.DeleteK = min(rapid.SampledFrom([]int{1, 1, 1, 2, 5}).Draw(t, "deletek"), s.Prefill-1)
 	}
-	s.Tape = rapid.SliceOfN(rapid.IntRange(0, 9), 0, 300).Draw(t, "tape")
-	s.DSYield = rapid.Bool().Draw(t, "dsyield")
+	s.Tape = rapid.SliceOfN(rapid.IntRange(0, 19), 0, 300).Draw(t, "tape")
+	s.DSYield = rapid.IntRange(0, 2).Draw(t, "dsyield") > 0
+	s.DSReadsOnly = rapid.Bool().Draw(t, "dsreadsonly")
 	return s
 }
 
@@ -119,7 +121,15 @@ func runC17(t *testing.T, s C17Scenario) (res Result) {
 			store.VerifSetYield(sc.Yield)
 			defer store.VerifSetYield(nil)
 			if s.DSYield {
-				e.mem.Yield = sc.Yield
+				if s.DSReadsOnly {
+					e.mem.Yield = func(p string) {
+						if p != "ds:write" {
+							sc.Yield(p)
+						}
+					}
+				} else {
+					e.mem.Yield = sc.Yield
+				}
 				defer func() { e.mem.Yield = nil }()
 			}
 			yield = sc.Yield
@@ -241,6 +251,22 @@ func runC17(t *testing.T, s C17Scenario) (res Result) {
 		}
 
 		if !s.Real {
+			// the controller itself watches Head and Height at every scheduling step (both are plain atomic
+			// loads): in the global serial order neither may ever decrease
+			var stepHead, stepHeight uint64
+			sc.OnStep = func(step int) {
+				if hd, err := e.st.Head(ctx); err == nil {
+					if hd.H < stepHead {
+						problem("at scheduler step %d Head().Height() went back from %d to %d", step, stepHead, hd.H)
+					}
+					stepHead = hd.H
+				}
+				if ht := e.st.Height(); ht < stepHeight {
+					problem("at scheduler step %d Height() went back from %d to %d", step, stepHeight, ht)
+				} else {
+					stepHeight = ht
+				}
+			}
 			finished := sc.Run(s.Tape, func() bool { return left.Load() == 0 }, 5000, 10*time.Millisecond)
 			sc.Off()
 			if !finished {
